@@ -280,6 +280,14 @@ def execCmd (w : World) (p : Pid) (c : Cmd) : World × Outcome :=
     let (w, r) := timerCancel w p h
     (w, .ret (if r then 1 else 0) "")
   | .timersClear => (timersClear w p, .ret 0 "")
+  | .timersClearOf q =>
+    -- `cmb_process_timers_clear(&procs[q])` by another process (or by `q` itself): the target is a started, unfinished process
+    if ¬ isRunning w q then (w, .skip) else (timersClear w q, .ret 0 "")
+  | .timerAddOf q d sig =>
+    -- `cmb_process_timer_add(&procs[q], d, sig)`, the handle is not kept
+    if ¬ isRunning w q then (w, .skip) else
+    let (w, h) := timerAdd w q d sig
+    (w, .ret 0 s!"h={h}")
   | .resume q sig =>
     if ¬ isRunning w q ∨ sig = 0 then (w, .skip) else
     ((sched w aResume (q + 1) sig w.now (w.proc q).prio).1, .ret 0 "")
